@@ -9,5 +9,10 @@ CHECKS = {
          "note": "Trusted: TLC, the projection in harness/drivers/c16.py, scipy's KDTree. Lattice positions only (spacing 0.3 nm); the numeric value of the 12-6 force is compared by a small independent monitor, the set of contributing residues is decided by the specification. The hard-coded 5000-point threshold is reached with filler points.",
          "technique": TECH},
 }
+import json as _json, pathlib as _pl
+for _f in sorted((_pl.Path(__file__).parent / "registry.d").glob("*.json")):
+    _d = _json.loads(_f.read_text())
+    _d.setdefault("technique", TECH)
+    CHECKS[_d.pop("property_id")] = _d
 for k in CHECKS:
     ENGINES[0]["serves_properties"].append(k)
